@@ -52,12 +52,15 @@ Qed.
 
 (* the operations that only look *)
 Definition is_read (o : op) : bool :=
-  match o with GetField _ _ | GetNF _ | ViewAll _ => true | _ => false end.
+  match o with GetField _ _ | TypeOf _ _ | GetNF _ | ViewAll _ => true | _ => false end.
 
 Theorem reads_are_pure s o s' w :
   is_read o = true -> exec s o = Ok (s', w) -> viewof s' = viewof s.
 Proof.
   intros Hr H. destruct o; try discriminate Hr; cbn [exec_op] in H.
+  - destruct (eval_idx rx all_matches s i) as [[s0 k]| | |] eqn:E0; cbn [rbind] in H; try discriminate.
+    destruct (getf s0 k) as [[[s1 f] t]| | |] eqn:E1; cbn [rbind] in H; try discriminate.
+    injection H as <- _. rewrite (view_get_field _ _ _ _ _ E1). exact (view_eval_idx _ _ _ _ E0).
   - destruct (eval_idx rx all_matches s i) as [[s0 k]| | |] eqn:E0; cbn [rbind] in H; try discriminate.
     destruct (getf s0 k) as [[[s1 f] t]| | |] eqn:E1; cbn [rbind] in H; try discriminate.
     injection H as <- _. rewrite (view_get_field _ _ _ _ _ E1). exact (view_eval_idx _ _ _ _ E0).
@@ -150,7 +153,7 @@ Qed.
 (* the whole class at once, on exec_op: everything except record arrival and the assignments *)
 Definition is_pure (o : op) : bool :=
   match o with
-  | GetField _ _ | GetNF _ | ViewAll _ | GetlineVar _ _
+  | GetField _ _ | TypeOf _ _ | GetNF _ | ViewAll _ | GetlineVar _ _
   | SetFS _ _ _ | SetOFS _ _ | SetRS _ _ | SetInMode _ _ | SetOutMode _ _ => true
   | _ => false
   end.
@@ -158,7 +161,7 @@ Definition is_pure (o : op) : bool :=
 Theorem pure_ops_keep_view s o s' w :
   is_pure o = true -> exec s o = Ok (s', w) -> viewof s' = viewof s.
 Proof.
-  intros Hp H. destruct o as [t|i|i t|i t|t|i f| |v|f|fsv r|o|r|m|m| ]; try discriminate Hp;
+  intros Hp H. destruct o as [t|i|i|i t|i t|t|i f| |v|f|fsv r|o|r|m|m| ]; try discriminate Hp;
     try (eapply reads_are_pure; [|exact H]; reflexivity); cbn [exec_op] in H.
   - injection H as <- _. reflexivity.
   - destruct (set_fs rx s fsv r) as [s1| | |] eqn:E; cbn [rbind] in H; try discriminate.
@@ -178,6 +181,66 @@ Theorem assign_record_resplits s t b :
 Proof.
   unfold view, ensure_fields, set_line. proj.
   destruct (split_record rx all_matches _ _ _ _ _); reflexivity.
+Qed.
+
+(* a new record, whatever the state before: the split is redone from the text alone and every
+   per-field flag is false (an input field is a number-looking string, never a "true" string) *)
+Theorem set_record_resets s t b :
+  ensure (set_line rx s t b) =
+  do fl <- split_record rx all_matches (fs rx s) (fs_re rx s) (inmode rx s) (rs rx s) t;
+  Ok (mkState rx t b fl (map (fun _ => false) fl) true (count_value (zlen fl))
+              (fs rx s) (fs_re rx s) (fs rx s) (fs_re rx s) (rs rx s) (inmode rx s)
+              (ofs rx s) (rs rx s) (inmode rx s) (outmode rx s)).
+Proof. reflexivity. Qed.
+
+Corollary set_record_flags_false s t b s1 :
+  ensure (set_line rx s t b) = Ok s1 ->
+  Forall (fun f => f = false) (fields_true rx s1) /\ line rx s1 = t /\ line_true rx s1 = b /\
+  split_record rx all_matches (fs rx s) (fs_re rx s) (inmode rx s) (rs rx s) t = Ok (fields rx s1).
+Proof.
+  rewrite set_record_resets.
+  destruct (split_record rx all_matches _ _ _ _ _) as [fl| | |]; cbn [rbind]; try discriminate.
+  intros H; injection H as <-. proj. repeat split; try reflexivity.
+  apply Forall_forall. intros x Hx. apply in_map_iff in Hx as (y & <- & _). reflexivity.
+Qed.
+
+Lemma get_field_flag s k s1 f t :
+  k <> 0 -> getf s k = Ok (s1, f, t) -> f = [] \/ In t (fields_true rx s1).
+Proof.
+  intros Hk H. unfold get_field in H.
+  replace (k =? 0) with false in H by (symmetry; apply Z.eqb_neq; exact Hk).
+  destruct (ensure s) as [s2| | |]; cbn [rbind] in H; try discriminate. cbv zeta in H.
+  destruct (_ <? 1); [injection H as _ <- _; left; reflexivity|].
+  destruct (_ >? _); [injection H as _ <- _; left; reflexivity|].
+  destruct (index (fields_true rx s2) _) as [tt| | |] eqn:Ei; cbn [rbind] in H; try discriminate.
+  destruct (index (fields rx s2) _) as [g| | |]; cbn [rbind] in H; try discriminate.
+  injection H as <- _ <-. right.
+  unfold index in Ei. destruct (_ && _); [|discriminate].
+  destruct (nth_error (fields_true rx s2) _) eqn:En; [|discriminate]. injection Ei as <-.
+  eapply nth_error_In. exact En.
+Qed.
+
+(* ... so the typing probe on any field of a freshly set record never reports "true string" *)
+Theorem typeof_after_record s t b x s' w :
+  float_to_int x <> 0 ->
+  exec (set_line rx s t b) (TypeOf rx (IConst x)) = Ok (s', w) -> w = OTyp None \/ w = OTyp (Some false).
+Proof.
+  intros Hk H. cbn [exec_op eval_idx rbind] in H.
+  destruct (getf (set_line rx s t b) (float_to_int x)) as [[[s1 f] tt]| | |] eqn:Eg; cbn [rbind] in H; try discriminate.
+  injection H as <- <-.
+  destruct (get_field_flag _ _ _ _ _ Hk Eg) as [->|Hin]; [left; reflexivity|].
+  assert (ensure (set_line rx s t b) = Ok s1) as He.
+  { unfold get_field in Eg.
+    replace (float_to_int x =? 0) with false in Eg by (symmetry; apply Z.eqb_neq; exact Hk).
+    destruct (ensure (set_line rx s t b)) as [s2| | |]; cbn [rbind] in Eg; try discriminate. cbv zeta in Eg.
+    destruct (_ <? 1); [injection Eg as <- _ _; reflexivity|].
+    destruct (_ >? _); [injection Eg as <- _ _; reflexivity|].
+    destruct (index (fields_true rx s2) _); cbn [rbind] in Eg; try discriminate.
+    destruct (index (fields rx s2) _); cbn [rbind] in Eg; try discriminate.
+    injection Eg as <- _ _. reflexivity. }
+  destruct (set_record_flags_false _ _ _ _ He) as (Hf & _).
+  rewrite Forall_forall in Hf. rewrite (Hf _ Hin).
+  destruct (bytes_eqb f [49; 48]); auto.
 Qed.
 
 Corollary exec_assign_record s t :
@@ -274,8 +337,12 @@ Qed.
 
 Theorem exec_no_panic s o : Inv s -> op_safe o -> exec s o <> Panic.
 Proof.
-  intros HI Hsafe. destruct o as [t|i|i t|i t|t|i f| |v|f|fsv r|o|r|m|m| ]; cbn [exec_op].
+  intros HI Hsafe. destruct o as [t|i|i|i t|i t|t|i f| |v|f|fsv r|o|r|m|m| ]; cbn [exec_op].
   - discriminate.
+  - destruct (eval_idx rx all_matches s i) as [[s0 k]| | |] eqn:E0; cbn [rbind]; try discriminate.
+    + pose proof (get_field_no_panic s0 k (Inv_eval_idx rx all_matches am_sorted _ _ _ _ HI E0)) as Hg.
+      destruct (getf s0 k) as [[[s1 f] t]| | |]; cbn [rbind]; congruence.
+    + exfalso. exact (eval_idx_no_panic s i HI E0).
   - destruct (eval_idx rx all_matches s i) as [[s0 k]| | |] eqn:E0; cbn [rbind]; try discriminate.
     + pose proof (get_field_no_panic s0 k (Inv_eval_idx rx all_matches am_sorted _ _ _ _ HI E0)) as Hg.
       destruct (getf s0 k) as [[[s1 f] t]| | |]; cbn [rbind]; congruence.
@@ -407,8 +474,11 @@ Qed.
 Theorem InvNF_step s o s' w :
   Inv s -> InvNF s -> op_nf_guard o -> exec s o = Ok (s', w) -> InvNF s'.
 Proof.
-  intros HI HN Hg H. destruct o as [t|i|i t|i t|t|i f| |v|f|fsv r|o|r|m|m| ]; cbn [exec_op] in H.
+  intros HI HN Hg H. destruct o as [t|i|i|i t|i t|t|i f| |v|f|fsv r|o|r|m|m| ]; cbn [exec_op] in H.
   - injection H as <- _. unfold InvNF, set_line. proj. discriminate.
+  - destruct (eval_idx rx all_matches s i) as [[s0 k]| | |] eqn:E0; cbn [rbind] in H; try discriminate.
+    destruct (getf s0 k) as [[[s1 f] t]| | |] eqn:E1; cbn [rbind] in H; try discriminate.
+    injection H as <- _. exact (InvNF_get_field _ _ _ _ _ (InvNF_eval_idx _ _ _ _ HN E0) E1).
   - destruct (eval_idx rx all_matches s i) as [[s0 k]| | |] eqn:E0; cbn [rbind] in H; try discriminate.
     destruct (getf s0 k) as [[[s1 f] t]| | |] eqn:E1; cbn [rbind] in H; try discriminate.
     injection H as <- _. exact (InvNF_get_field _ _ _ _ _ (InvNF_eval_idx _ _ _ _ HN E0) E1).
